@@ -448,7 +448,159 @@ fn check_glob(g: &GlobCase, ic: bool, paths: &[(String, Vec<char>)], agg: &mut A
     }
 }
 
+/// Files of the fixed tree used by the command-line cross-check (relative to its root). Directory names
+/// (a, A, aa) and file names are disjoint.
+const CLI_FILES: &[&str] = &[
+    "b", "B", "ab", "a.b", "a-b", "a/b", "a/B", "a/ab", "a/a/b", "a/a/a.b", "A/b", "A/ab", "aa/b", "aa/a/b", "ba", "bb",
+];
+
+/// Runs the real binary: `fclones group --rf-over 0 --min 0 -f fdupes <opt>=<glob> [-i] .` in `tree`; returns the
+/// selected files relative to the tree, or Err(stderr).
+fn cli_select(fclones_bin: &str, tree: &str, opt: &str, glob: &str, ic: bool) -> Result<Vec<String>, String> {
+    let mut cmd = std::process::Command::new(fclones_bin);
+    cmd.current_dir(tree)
+        .env_clear()
+        .env("PATH", "/usr/bin:/bin")
+        .env("HOME", tree)
+        .env("FCLONES_VERIF_DISK_KIND", "ssd")
+        .args(["group", "--rf-over", "0", "--min", "0", "-f", "fdupes", "--no-ignore", "--hidden"])
+        .arg(format!("--{opt}={glob}"));
+    if ic {
+        cmd.arg("-i");
+    }
+    cmd.arg(".");
+    let out = cmd.output().map_err(|e| e.to_string())?;
+    if !out.status.success() {
+        return Err(String::from_utf8_lossy(&out.stderr).to_string());
+    }
+    let prefix = format!("{}/", tree.trim_end_matches('/'));
+    let mut sel = Vec::new();
+    for line in String::from_utf8_lossy(&out.stdout).lines() {
+        if let Some(rel) = line.strip_prefix(&prefix) {
+            sel.push(rel.to_string());
+        }
+    }
+    sel.sort();
+    Ok(sel)
+}
+
+/// Command-line cross-check: what `--name`, `--path`, `--exclude` (with and without `-i`) select on a real tree
+/// must be what the reference matcher says. Binds option parsing / selector construction to Pattern semantics.
+fn check_cli(g: &GlobCase, fclones_bin: &str, tree: &str, agg: &mut Agg, st: &mut Stats) {
+    if Pattern::glob_with(&g.src, &PatternOpts::default()).is_err() {
+        return; // rejected patterns are the in-process check's business
+    }
+    let is_abs = g.src.starts_with('/') || g.src.starts_with("**");
+    for ic in [false, true] {
+        for opt in ["name", "path", "exclude"] {
+            st.globs += 1;
+            let got = match cli_select(fclones_bin, tree, opt, &g.src, ic) {
+                Ok(v) => v,
+                Err(e) => {
+                    agg.add(
+                        format!("\"kind\":\"cli_failed\",\"option\":{},\"ignore_case\":{},\"token_kinds\":{}", jstr(opt), ic, jstr(&kinds_str(g))),
+                        || format!("\"glob\":{},\"error\":{}", jstr(&g.src), jstr(&e.chars().rev().take(300).collect::<String>().chars().rev().collect::<String>())),
+                    );
+                    continue;
+                }
+            };
+            let subject = |rel: &str| -> Vec<char> {
+                if opt == "name" {
+                    rel.rsplit('/').next().unwrap().chars().collect()
+                } else if is_abs {
+                    format!("{}/{}", tree.trim_end_matches('/'), rel).chars().collect()
+                } else {
+                    rel.chars().collect()
+                }
+            };
+            let mut must: Vec<String> = Vec::new();
+            let mut may: Vec<String> = Vec::new();
+            for f in CLI_FILES {
+                st.evals += 1;
+                let subj = subject(f);
+                let m1 = rmatch(&g.toks, &subj, ic, false);
+                let m2 = rmatch(&g.toks, &subj, ic, true);
+                let (sel1, sel2) = if opt == "exclude" { (!m1, !m2) } else { (m1, m2) };
+                // --exclude: files below a directory that the glob matches fully are "don't care"
+                let mut dir_excluded = false;
+                if opt == "exclude" {
+                    let mut d = String::new();
+                    let comps: Vec<&str> = f.split('/').collect();
+                    for c in &comps[..comps.len() - 1] {
+                        if !d.is_empty() {
+                            d.push('/');
+                        }
+                        d.push_str(c);
+                        let ds = subject(&d);
+                        if rmatch(&g.toks, &ds, ic, false) || rmatch(&g.toks, &ds, ic, true) {
+                            dir_excluded = true;
+                        }
+                    }
+                    if is_abs {
+                        // an absolute pattern can also match the scanned root or a directory above it
+                        let root = tree.trim_end_matches('/');
+                        for (i, ch) in root.char_indices().chain(std::iter::once((root.len(), '/'))) {
+                            if ch == '/' && i > 0 {
+                                let ds: Vec<char> = root[..i].chars().collect();
+                                if rmatch(&g.toks, &ds, ic, false) || rmatch(&g.toks, &ds, ic, true) {
+                                    dir_excluded = true;
+                                }
+                            }
+                        }
+                    }
+                }
+                if dir_excluded || sel1 != sel2 {
+                    may.push(f.to_string());
+                } else if sel1 {
+                    must.push(f.to_string());
+                    st.matches += 1;
+                }
+            }
+            let missing: Vec<&String> = must.iter().filter(|f| !got.contains(f)).collect();
+            let extra: Vec<&String> = got.iter().filter(|f| !must.contains(f) && !may.contains(f)).collect();
+            if !missing.is_empty() || !extra.is_empty() {
+                agg.add(
+                    format!(
+                        "\"kind\":\"cli_selection_differs\",\"option\":{},\"ignore_case\":{},\"missing\":{},\"extra\":{},\"token_kinds\":{}",
+                        jstr(opt), ic, !missing.is_empty(), !extra.is_empty(), jstr(&kinds_str(g))
+                    ),
+                    || format!("\"glob\":{},\"missing\":{},\"extra\":{}", jstr(&g.src), jstr(&format!("{missing:?}")), jstr(&format!("{extra:?}"))),
+                );
+            }
+        }
+    }
+}
+
 pub fn main(args: &[String]) {
+    if args.iter().any(|a| a == "--cli") {
+        let bin = arg_val(args, "--fclones").expect("--fclones");
+        let tree = arg_val(args, "--tree").expect("--tree");
+        for f in CLI_FILES {
+            let p = std::path::Path::new(tree).join(f);
+            std::fs::create_dir_all(p.parent().unwrap()).unwrap();
+            std::fs::write(&p, b"x").unwrap();
+        }
+        let k: usize = arg_val(args, "--tokens").unwrap_or("2").parse().unwrap();
+        let shard = arg_val(args, "--shard").unwrap_or("0/1");
+        let (si, sn) = shard.split_once('/').unwrap();
+        let (si, sn): (usize, usize) = (si.parse().unwrap(), sn.parse().unwrap());
+        let mut agg = Agg::default();
+        let mut st = Stats { globs: 0, rejected: 0, evals: 0, matches: 0, dir_checks: 0, excl_checks: 0, ambiguous: 0 };
+        let mut i = 0usize;
+        enumerate_globs(k, None, &mut |g| {
+            let mine = i % sn == si;
+            i += 1;
+            if mine {
+                check_cli(g, bin, tree, &mut agg, &mut st);
+            }
+        });
+        agg.print();
+        println!(
+            "{{\"type\":\"summary\",\"globs\":{},\"rejected\":0,\"paths\":{},\"evaluations\":{},\"matches\":{},\"dir_checks\":0,\"exclude_checks\":0,\"ambiguous_negclass_sep\":0}}",
+            st.globs, CLI_FILES.len(), st.evals, st.matches
+        );
+        return;
+    }
     let pathlen: usize = arg_val(args, "--pathlen").unwrap_or("4").parse().unwrap();
     let paths: Vec<(String, Vec<char>)> = paths_upto(pathlen)
         .into_iter()
